@@ -248,4 +248,16 @@ class XtrTar(Xtr):
             yield Case(f'tar{i}', ['mode tar'] + G.sequence(rng, tier))
 
 
-ENGINES = [PathClean(), Xtr(), XtrTar()]
+class XtrDeep(Xtr):
+    """Pathnames from PATH_MAX to 3*PATH_MAX (edit_deep_directories chdir()s into intermediate directories)."""
+    name = 'xtrdeep'
+    harness = 'xtr'
+    DEEPMODE = 'deepmon'
+
+    def gen(self, rng, tier):
+        n = 60 if tier == 'quick' else 1200
+        for i in range(n):
+            yield Case(f'deep{i}', ['mode ' + self.DEEPMODE] + G.deep_sequence(rng))
+
+
+ENGINES = [PathClean(), Xtr(), XtrTar(), XtrDeep()]
